@@ -294,6 +294,7 @@ def run(ctx):
                                           % (len(docs), name, rc, err[-150:], hist.short(got), hist.short(ref)),
                                    "yaml": text, "boundary": name, "class": "c04-yaml-stream-boundary"})
     ny = ynode_pass(ctx, rng.fork("ynodes"), ctx.n(150, 4000), dist)
+    ny += normalize_pass(ctx, contents, rng.fork("norm"), dist)
     return {"evaluations": len(jobs) * 2 + len(ycases) + len(scases) + ny, "distinct_nontrivial": nt, "rule": RULE, "samples": [core.to_jsonable(c) for c in contents[:1]],
             "distribution": dist, "disagreements_checked": len(ctx.violations)}
 
@@ -324,6 +325,80 @@ def pyyaml_view(text):
         return conv(yaml.load(text, Loader=L))
     except Exception:
         return None
+
+
+def raw_enc(v):
+    """a typed value of the harness (X = Go-only dynamic types) as the plain encoding Model/Driver.v's dec_raw reads"""
+    import re as _re
+    if v is None:
+        return ["nil"]
+    if isinstance(v, bool):
+        return ["bool", v]
+    if isinstance(v, X):
+        if v.tag == "K":
+            return ["int64", v.payload]
+        if v.tag == "J":
+            t = v.payload
+            if _re.fullmatch(r"-?[0-9]+", t) and -2 ** 63 <= int(t) < 2 ** 63:
+                return ["jsonint", int(t)]
+            return ["jsonfloat", F(core.go_g(float(t)))]
+        return ["other", v.tag]
+    if isinstance(v, F):
+        return ["float", v]
+    if isinstance(v, int):
+        return ["int", v]
+    if isinstance(v, str):
+        return ["str", v]
+    if isinstance(v, list):
+        return ["list", [raw_enc(x) for x in v]]
+    if isinstance(v, dict):
+        return ["map", [[k, raw_enc(v[k])] for k in sorted(v, key=lambda s: s.encode("utf-8", "surrogateescape"))]]
+    return ["other", repr(v)]
+
+
+def normalize_pass(ctx, contents, rng, dist):
+    """the tie of Model/Normalize.v (the C04 theorems are about it) to the code: each document of the generated contents is
+    written in each format by the framework's emitters, read by bkl's UnmarshalStream through the public Format API - the Go
+    values BEFORE normalisation, typed - and (1) they must be what the model's table 'arrives' says the decoder hands over,
+    (2) the model's normalize of them must be the logical value, which is also what bkl holds after loading"""
+    cases, meta = [], []
+    for ci, layers in enumerate(contents):
+        for docs in layers:
+            for f in ("json", "yaml", "toml"):
+                if f == "toml" and not all(gen.toml_ok(d) for d in docs):
+                    continue
+                try:
+                    text = gen.emit(f, docs, None)
+                except Exception:
+                    continue
+                cases.append(["unframe", f, text])
+                meta.append((f, docs))
+    res = ctx.impl(cases)
+    q_arr, q_norm, keep = [], [], []
+    for (f, docs), r in zip(meta, res):
+        if not (isinstance(r, list) and r and r[0] == "ok") or len(r[1]) != len(docs):
+            continue
+        for d, rawd in zip(docs, r[1]):
+            q_arr.append(["arrives", f, d])
+            q_norm.append(["normalize", raw_enc(rawd)])
+            keep.append((f, d, rawd))
+    ma = ctx.model(q_arr) if q_arr else []
+    mn = ctx.model(q_norm) if q_norm else []
+    n = 0
+    for (f, d, rawd), a, nres in zip(keep, ma, mn):
+        n += 1
+        why = None
+        got = raw_enc(rawd)
+        if not veq(got, a):
+            why = "from %s the decoder hands over %s, the model's table 'arrives' says %s" % (f, hist.short(got), hist.short(a))
+        elif not (isinstance(nres, list) and nres and nres[0] == "ok" and veq(nres[1], d)):
+            why = "the model's normalize of what %s delivered is %s, the logical value is %s" % (f, hist.short(nres), hist.short(d))
+        if why and len([v for v in ctx.violations if v.get("class") == "c04-normalize-model"]) < 2:
+            ctx.violations.append({"name": "normalize-" + core.vhash([f, d]), "property": "C04", "kind": "no-failing-input-found",
+                                   "theorem": "C04_numbers_exact / C04_format_independent (Properties/C04.v) are about Model.Normalize.normalize/arrives; their correspondence with the decoders and normalize.go broke",
+                                   "why": why, "format": f, "document": core.to_jsonable(d), "class": "c04-normalize-model"})
+    dist["normalize_model_documents"] = n
+    return n
 
 
 def ynode_pass(ctx, rng, n, dist):
